@@ -269,6 +269,36 @@ def group_cells(tier):
 
     cells.append(Cell("SO3Mrp/kin_right", st_q(), check_m, nt, classify, quick=300, thorough=5000,
                       build=lambda: gm.fn("gJr").build()))
+
+    # the library's own in-place update of an element (shadow_if_necessary rewrites arg.param): a Jacobian taken from the same
+    # element object before and after it must follow the parameters
+    def mk_after():
+        ca = cy.ca
+        r = ca.SX.sym("r", 3)
+        X = gm.G.elem(r)
+        J1 = X.right_jacobian()
+        gm.G.shadow_if_necessary(X)
+        J2 = X.right_jacobian()
+        return [r], [ca.densify(J1), ca.densify(J2), ca.densify(X.param)]
+
+    after = cy.Fn("SO3Mrp_jac_after_shadow", mk_after)
+
+    def check_after(case):
+        r = np.array(gens.encode_rot(case["rot"], "mrp"))
+        require(1e-12 < float(r @ r) < 1e6)
+        if case.get("snap"):
+            r = -r / float(r @ r)  # the other representative: half of the cases start outside the unit ball
+        J1, J2, r2 = after(r)
+        r2 = cy.vec(r2)
+        L.close(J1, gm.fn("gJr")(r), "SO3Mrp right jacobian of an element vs the function of its parameters", atol=1e-12, rtol=1e-12,
+                scale=float(np.max(np.abs(J1))), r=r.tolist())
+        L.close(J2, gm.fn("gJr")(r2), "SO3Mrp right jacobian of the same element object after shadow_if_necessary rewrote its "
+                "parameters vs the function of the new parameters", atol=1e-12, rtol=1e-12, scale=float(np.max(np.abs(J2))) + 1,
+                r=r.tolist(), r_after=r2.tolist())
+
+    cells.append(Cell("SO3Mrp/kin_right_after_shadow", st_q(), check_after, nt,
+                      lambda c: ["outside" if float(np.dot(*(2 * [np.array(gens.encode_rot(c["rot"], "mrp"))]))) > 1 or c.get("snap") else "inside"],
+                      quick=150, thorough=2000, build=lambda: (after.build(), gm.fn("gJr").build())))
     return cells
 
 
